@@ -6,7 +6,7 @@ Local Open Scope list_scope.
 
 (* ---------- the independent specification: "an error object occurs in v" ---------- *)
 Inductive occurs_err : vtree -> Prop :=
-| oe_here : forall td, occurs_err (VErr td)
+| oe_here : occurs_err VErr
 | oe_item : forall l x, In x l -> occurs_err x -> occurs_err (VList l)
 | oe_key : forall kvs k x, In (k, x) kvs -> occurs_err k -> occurs_err (VMap kvs)
 | oe_val : forall kvs k x, In (k, x) kvs -> occurs_err x -> occurs_err (VMap kvs).
@@ -42,7 +42,7 @@ Qed.
    somewhere in the value (list/tuple items, dict keys, dict values, any depth) *)
 Lemma scan_complete : forall v, scan v = true <-> occurs_err v.
 Proof.
-  induction v as [| | | | | |td|l IH|kvs IH] using vtree_ind'; cbn [scan];
+  induction v as [| | | | | | |l IH|kvs IH] using vtree_ind'; cbn [scan];
     try (split; [discriminate|intros H; inversion H]).
   - split; [constructor|reflexivity].
   - rewrite existsb_exists. split.
@@ -76,35 +76,6 @@ Proof.
     apply H in Hin. apply scan_false_err_free in Hin. congruence.
 Qed.
 
-(* the error object reported is the first one; there is one iff the scan finds one *)
-Lemma first_err_scan : forall v, first_err v = None <-> scan v = false.
-Proof.
-  induction v as [| | | | | |td|l IH|kvs IH] using vtree_ind'; cbn [first_err scan];
-    try (split; [reflexivity|reflexivity]); try (split; discriminate).
-  - induction IH as [|x r Hx _ IHr]; cbn; [tauto|].
-    destruct (first_err x) as [t|] eqn:E.
-    + split; [discriminate|]. intros H. apply Bool.orb_false_iff in H as [H _].
-      apply Hx in H. discriminate.
-    + destruct Hx as [Hx _]. rewrite (Hx eq_refl). cbn. exact IHr.
-  - induction IH as [|[k x] r [Hk Hx] _ IHr]; cbn; [tauto|]. cbn [fst snd] in *.
-    destruct (first_err k) as [t|] eqn:Ek.
-    { split; [discriminate|]. intros H. apply Bool.orb_false_iff in H as [H _].
-      apply Bool.orb_false_iff in H as [H _]. apply Hk in H. discriminate. }
-    destruct Hk as [Hk _]. rewrite (Hk eq_refl). cbn.
-    destruct (first_err x) as [t|] eqn:Ex.
-    { split; [discriminate|]. intros H. apply Bool.orb_false_iff in H as [H _].
-      apply Hx in H. discriminate. }
-    destruct Hx as [Hx _]. rewrite (Hx eq_refl). cbn. exact IHr.
-Qed.
-
-Lemma first_err_some : forall v t, first_err v = Some t -> scan v = true.
-Proof.
-  intros v t H. destruct (scan v) eqn:S; auto. apply first_err_scan in S. congruence.
-Qed.
-
-Lemma first_err_none_err_free : forall v, first_err v = None <-> err_free v.
-Proof. intros v. rewrite first_err_scan. apply scan_false_err_free. Qed.
-
 (* ====================================================================== *)
 (* C10: the evaluation wrappers                                            *)
 (* ====================================================================== *)
@@ -113,10 +84,6 @@ Proof. intros v. rewrite first_err_scan. apply scan_false_err_free. Qed.
    error object somewhere *)
 Definition failed (r : raw) : Prop :=
   match r with RVal v => occurs_err v | _ => True end.
-
-(* celpy raised a CELEvalError whose .tree makes celpy's own tree_dump raise (IndexError):
-   the one situation in which koreo's except handler itself raises *)
-Definition undumpable (r : raw) : Prop := r = RRaise false.
 
 (* "a PermFail naming the location": the location string occurs in the message, or is the
    outcome's location attribute *)
@@ -139,49 +106,33 @@ Qed.
 Lemma names_loc_attr : forall L m, names_loc L (PermFail m (Some L)).
 Proof. intros L m. exists m, (Some L). auto. Qed.
 
-Lemma names_loc_fail_exn : forall L, names_loc L (fail_exn L).
-Proof. intros. apply names_loc_attr. Qed.
-
 Lemma failed_scan : forall v, failed (RVal v) <-> scan v = true.
 Proof. intros v. cbn. symmetry. apply scan_complete. Qed.
 
-Lemma failed_first_err : forall v, failed (RVal v) -> exists t, first_err v = Some t.
-Proof.
-  intros v F. apply failed_scan in F. destruct (first_err v) as [t|] eqn:E; eauto.
-  apply first_err_scan in E. congruence.
-Qed.
-
 (* evaluate: None only without an expression; a value only if celpy returned that very
-   value and it is error-free; a PermFail naming the location when celpy failed; and it
-   RAISES exactly when celpy raised an error with an undumpable tree. *)
+   value and it is error-free; otherwise a PermFail naming the location.  Never raises
+   (it is a total function into [eres]). *)
 Lemma evaluate_cases : forall e loc,
   match evaluate e loc with
-  | Done ENone => e = None
-  | Done (EVal v) => e = Some (RVal v) /\ err_free v
-  | Done (EFail o) => (exists r, e = Some r /\ failed r) /\ names_loc loc o
-  | Raised _ => e = Some (RRaise false)
+  | ENone => e = None
+  | EVal v => e = Some (RVal v) /\ err_free v
+  | EFail o => (exists r, e = Some r /\ failed r) /\ names_loc loc o
   end.
 Proof.
-  intros [[[]| |v]|] loc; cbn; auto.
-  - split; [exists (RRaise true); cbn; auto|apply names_loc_fail_eval].
+  intros [[| |v]|] loc; cbn; auto.
+  - split; [exists RRaise; cbn; auto|apply names_loc_fail_eval].
   - split; [exists RRaiseOther; cbn; auto|apply names_loc_fail_unknown].
-  - destruct (first_err v) as [[]|] eqn:E.
-    + split; [exists (RVal v); split; auto; apply failed_scan; eapply first_err_some; eauto
-             |apply names_loc_fail_eval].
-    + split; [exists (RVal v); split; auto; apply failed_scan; eapply first_err_some; eauto
-             |apply names_loc_fail_unknown].
-    + split; auto. now apply first_err_none_err_free.
+  - destruct (scan v) eqn:E.
+    + split; [exists (RVal v); split; auto; now apply failed_scan|apply names_loc_fail_eval].
+    + split; auto. now apply scan_false_err_free.
 Qed.
 
-Lemma evaluate_failed : forall r loc,
-  failed r -> ~ undumpable r -> exists o, evaluate (Some r) loc = Done (EFail o) /\ names_loc loc o.
+Lemma evaluate_failed : forall r loc, failed r -> exists o, evaluate (Some r) loc = EFail o /\ names_loc loc o.
 Proof.
-  intros [[]| |v] loc H U; cbn.
+  intros [| |v] loc H; cbn.
   - eexists; split; eauto using names_loc_fail_eval.
-  - exfalso. now apply U.
   - eexists; split; eauto using names_loc_fail_unknown.
-  - destruct (failed_first_err v H) as ([] & ->); eexists; split;
-      eauto using names_loc_fail_eval, names_loc_fail_unknown.
+  - apply failed_scan in H. rewrite H. eexists; split; eauto using names_loc_fail_eval.
 Qed.
 
 (* ---------- maps ---------- *)
@@ -314,69 +265,50 @@ Lemma names_loc_bad_overlay : forall L, names_loc L (PermFail (Some (msg_bad_ove
 Proof. intros. apply names_loc_attr. Qed.
 
 (* evaluate_overlay: a value only if celpy did not fail, and then an error-free one (given an
-   error-free base); every outcome is a PermFail naming the location; an exception escapes only
-   (a) when celpy raised an error with an undumpable tree, or (b) from the applier (IndexError)
-   when the index does not fit the value list *)
+   error-free base); every failure is a PermFail naming the location; the only exception
+   that can escape is the applier's IndexError, excluded when the index fits the value list *)
 Lemma evaluate_overlay_cases : forall idx r base loc,
   err_free (VMap base) ->
   match evaluate_overlay idx r base loc with
   | Done (UVal v) => ~ failed r /\ err_free v
   | Done (UOut o) => names_loc loc o
-  | Raised _ => undumpable r \/
-                exists l, r = RVal (VList l) /\ idx_in_range idx (List.length l) = false
+  | Raised _ => exists l, r = RVal (VList l) /\ idx_in_range idx (List.length l) = false
   end.
 Proof.
   intros idx r base loc Hb. unfold evaluate_overlay.
   destruct idx as [n|kvs]; [apply names_loc_bad_overlay|].
-  destruct r as [[]| |v]; try apply names_loc_fail_eval; try apply names_loc_fail_unknown.
-  { left. reflexivity. }
-  destruct (first_err v) as [[]|] eqn:S;
-    [apply names_loc_fail_eval|apply names_loc_fail_unknown|].
-  apply first_err_scan in S.
+  destruct r as [| |v]; try apply names_loc_fail_eval; try apply names_loc_fail_unknown.
+  destruct (scan v) eqn:S; [apply names_loc_fail_eval|].
   destruct v; try apply names_loc_bad_overlay.
   destruct (apply_idx (ISub kvs) (Some (VMap base)) l) as [m|e] eqn:A.
   - split.
     + intros F. apply failed_scan in F. congruence.
     + apply scan_false_err_free. eapply apply_idx_scan; eauto.
       intros o Ho. inversion Ho; subst. now apply scan_false_err_free.
-  - right. exists l. split; auto. destruct (idx_in_range (ISub kvs) (List.length l)) eqn:R; auto.
+  - exists l. split; auto. destruct (idx_in_range (ISub kvs) (List.length l)) eqn:R; auto.
     destruct (apply_idx_total (ISub kvs) (Some (VMap base)) l R) as (v & Hv). congruence.
 Qed.
 
 Lemma evaluate_overlay_failed : forall idx r base loc,
-  failed r -> ~ undumpable r ->
-  exists o, evaluate_overlay idx r base loc = Done (UOut o) /\ names_loc loc o.
+  failed r -> exists o, evaluate_overlay idx r base loc = Done (UOut o) /\ names_loc loc o.
 Proof.
-  intros idx r base loc F U. unfold evaluate_overlay.
+  intros idx r base loc F. unfold evaluate_overlay.
   destruct idx as [n|kvs]; [eexists; split; eauto using names_loc_bad_overlay|].
-  destruct r as [[]| |v].
+  destruct r as [| |v].
   - eexists; split; eauto using names_loc_fail_eval.
-  - exfalso. now apply U.
   - eexists; split; eauto using names_loc_fail_unknown.
-  - destruct (failed_first_err v F) as ([] & ->); eexists; split;
-      eauto using names_loc_fail_eval, names_loc_fail_unknown.
+  - apply failed_scan in F. rewrite F. eexists; split; eauto using names_loc_fail_eval.
 Qed.
 
 (* evaluate_predicates: the result is None or a non-Ok outcome (it has no data field, so
    nothing can leak); a failure reported by celpy is a PermFail naming the location *)
 Lemma evaluate_predicates_failed : forall r loc,
-  failed r -> ~ undumpable r ->
-  exists o, evaluate_predicates_raw r loc = Done (Some o) /\ names_loc loc o.
+  failed r -> exists o, evaluate_predicates_raw r loc = Some o /\ names_loc loc o.
 Proof.
-  intros [[]| |v] loc F U; cbn.
+  intros [| |v] loc F; cbn.
   - eexists; split; eauto using names_loc_fail_eval.
-  - exfalso. now apply U.
-  - eexists; split; eauto using names_loc_fail_exn.
-  - destruct (failed_first_err v F) as ([] & ->); eexists; split;
-      eauto using names_loc_fail_eval, names_loc_fail_exn.
-Qed.
-
-Lemma evaluate_predicates_raises : forall r loc e,
-  evaluate_predicates_raw r loc = Raised e -> undumpable r.
-Proof.
-  intros [[]| |v] loc e; cbn; try discriminate; [reflexivity|].
-  destruct (first_err v) as [[]|]; try discriminate.
-  destruct v; try discriminate. destruct (p2k loc l); discriminate.
+  - eexists; split; eauto. apply names_loc_attr.
+  - apply failed_scan in F. rewrite F. eexists; split; eauto using names_loc_fail_eval.
 Qed.
 
 Lemma decide_not_ok : forall loc p o, decide loc p = Done (Some o) -> is_ok o = false.
@@ -396,11 +328,11 @@ Proof.
 Qed.
 
 Lemma evaluate_predicates_not_ok : forall r loc o,
-  evaluate_predicates_raw r loc = Done (Some o) -> is_ok o = false.
+  evaluate_predicates_raw r loc = Some o -> is_ok o = false.
 Proof.
   intros r loc o. unfold evaluate_predicates_raw.
-  destruct r as [[]| |v]; try (intros E; inversion E; subst; reflexivity).
-  destruct (first_err v) as [[]|]; try (intros E; inversion E; subst; reflexivity).
+  destruct r as [| |v]; try (intros E; inversion E; subst; reflexivity).
+  destruct (scan v); [intros E; inversion E; subst; reflexivity|].
   destruct v; try (intros E; inversion E; subst; reflexivity).
   unfold p2k. destruct l as [|p rest]; [discriminate|].
   destruct (decide loc p) as [[o'|]|e] eqn:D; intros E; inversion E; subst.
@@ -409,16 +341,13 @@ Proof.
 Qed.
 
 (* a user-visible message never is the text of an error object: outcomes other than the
-   evaluation-failure PermFails are produced only from an error-free predicate list *)
+   evaluation-failure PermFail are produced only from an error-free predicate list *)
 Lemma evaluate_predicates_from_clean : forall v loc o,
-  evaluate_predicates_raw (RVal v) loc = Done (Some o) ->
-  o <> fail_eval loc -> o <> fail_exn loc -> err_free v.
+  evaluate_predicates_raw (RVal v) loc = Some o -> o <> fail_eval loc -> err_free v.
 Proof.
-  intros v loc o E N1 N2. unfold evaluate_predicates_raw in E.
-  destruct (first_err v) as [[]|] eqn:S.
+  intros v loc o E N. unfold evaluate_predicates_raw in E. destruct (scan v) eqn:S.
   - inversion E; subst. contradiction.
-  - inversion E; subst. contradiction.
-  - now apply first_err_none_err_free.
+  - now apply scan_false_err_free.
 Qed.
 
 (* ====================================================================== *)
@@ -448,9 +377,6 @@ Definition vf_ret_fits (f : vfn) : Prop :=
   | _ => True
   end.
 
-(* at no site did celpy raise an error whose tree tree_dump cannot print *)
-Definition vf_dumpable (f : vfn) : Prop := forall s, vf_raw_at f s <> Some (RRaise false).
-
 Definition base_map (base : option (list (vtree * vtree))) : list (vtree * vtree) :=
   match base with Some b => b | None => [] end.
 
@@ -461,34 +387,25 @@ Theorem vf_no_leak : forall f base loc,
   err_free (VMap (base_map base)) ->
   (* 1. a returned value never contains an error object *)
   (forall v, fst (reconcile_vf f base loc) = Done (UVal v) -> err_free v) /\
-  (* 2. a site that was reached and at which celpy reported a failure => PermFail naming it
-        (unless the error's tree is undumpable: then see 3) *)
+  (* 2. a site that was reached and at which celpy reported a failure => PermFail naming it *)
   (forall s rw, In s (snd (reconcile_vf f base loc)) -> vf_raw_at f s = Some rw -> failed rw ->
-     ~ undumpable rw ->
      exists o, fst (reconcile_vf f base loc) = Done (UOut o) /\ names_loc (sloc loc (part s)) o) /\
-  (* 3. no exception escapes, PROVIDED no error with an undumpable tree was raised *)
-  (vf_ret_fits f -> vf_dumpable f -> exists u, fst (reconcile_vf f base loc) = Done u).
+  (* 3. no exception escapes *)
+  (vf_ret_fits f -> exists u, fst (reconcile_vf f base loc) = Done u).
 Proof.
   intros f base loc Hb. unfold reconcile_vf.
-  pose proof (evaluate_predicates_raises) as HPR.
-  destruct (evaluate_predicates_opt (vf_pre f) (sloc loc "preconditions")) as [[o|]|e] eqn:P.
+  destruct (evaluate_predicates_opt (vf_pre f) (sloc loc "preconditions")) as [o|] eqn:P.
   { cbn [fst snd]. split; [discriminate|]. split; [|eauto].
-    intros st rw Hin Hr F U. apply trace_of_in' in Hin as [-> _]. cbn in Hr.
-    rewrite Hr in P. cbn in P.
-    destruct (evaluate_predicates_failed rw (sloc loc "preconditions") F U) as (o' & E & N).
+    intros st rw Hin Hr F. apply trace_of_in' in Hin as [-> _]. cbn in Hr.
+    rewrite Hr in P. cbn in P. destruct (evaluate_predicates_failed rw (sloc loc "preconditions") F) as (o' & E & N).
     exists o'. split; auto. congruence. }
-  2:{ cbn [fst snd]. split; [discriminate|]. split.
-      - intros st rw Hin Hr F U. apply trace_of_in' in Hin as [-> _]. cbn in Hr.
-        rewrite Hr in P. cbn in P. apply HPR in P. contradiction.
-      - intros _ Hd. exfalso. destruct (vf_pre f) as [rw|] eqn:R; [|discriminate].
-        cbn in P. apply HPR in P. apply (Hd SPre). cbn. now rewrite R, P. }
-  assert (Hpre : forall rw, vf_pre f = Some rw -> failed rw -> ~ undumpable rw -> False).
-  { intros rw Hr F U. rewrite Hr in P. cbn in P.
-    destruct (evaluate_predicates_failed rw (sloc loc "preconditions") F U) as (o' & E & _). congruence. }
+  assert (Hpre : forall rw, vf_pre f = Some rw -> failed rw -> False).
+  { intros rw Hr F. rewrite Hr in P. cbn in P.
+    destruct (evaluate_predicates_failed rw (sloc loc "preconditions") F) as (o' & E & _). congruence. }
   destruct (vf_return f) as [[idx rr]|] eqn:R.
   2:{ cbn [fst snd]. split; [intros v E; inversion E; subst; apply scan_false_err_free; reflexivity|].
       split; [|eauto].
-      intros st rw Hin Hr F U. apply trace_of_in' in Hin as [-> _]. cbn in Hr. exfalso; eauto. }
+      intros st rw Hin Hr F. apply trace_of_in' in Hin as [-> _]. cbn in Hr. exfalso; eauto. }
   pose proof (evaluate_cases (vf_locals f) (sloc loc "locals")) as HL.
   pose proof (evaluate_overlay_cases idx rr (base_map base) (sloc loc "return") Hb) as HO.
   fold (base_map base).
@@ -497,59 +414,56 @@ Proof.
               (trace_of SPre (vf_pre f) ++ trace_of SLocals (vf_locals f)) ++ [SReturn]) in
     (forall rw, vf_locals f = Some rw -> failed rw -> False) ->
     (forall v, fst r = Done (UVal v) -> err_free v) /\
-    (forall s rw, In s (snd r) -> vf_raw_at f s = Some rw -> failed rw -> ~ undumpable rw ->
+    (forall s rw, In s (snd r) -> vf_raw_at f s = Some rw -> failed rw ->
        exists o, fst r = Done (UOut o) /\ names_loc (sloc loc (part s)) o) /\
-    (vf_ret_fits f -> vf_dumpable f -> exists u, fst r = Done u)).
+    (vf_ret_fits f -> exists u, fst r = Done u)).
   { cbn [fst snd]. intros Hloc. split; [|split].
     - intros v E. rewrite E in HO. tauto.
-    - intros st rw Hin Hr F U. apply in_app_or in Hin as [Hin|[<-|[]]].
+    - intros st rw Hin Hr F. apply in_app_or in Hin as [Hin|[<-|[]]].
       + apply in_app_or in Hin as [Hin|Hin]; apply trace_of_in' in Hin as [-> _]; cbn in Hr; exfalso; eauto.
       + cbn in Hr. rewrite R in Hr. cbn in Hr. inversion Hr; subst.
         apply evaluate_overlay_failed; auto.
-    - intros Hf Hd. unfold vf_ret_fits in Hf. rewrite R in Hf.
+    - intros Hf. unfold vf_ret_fits in Hf. rewrite R in Hf.
       destruct (evaluate_overlay idx rr (base_map base) (sloc loc "return")) as [u|e]; eauto.
-      destruct HO as [HU|(l & -> & Hr)]; [|congruence].
-      exfalso. apply (Hd SReturn). cbn. rewrite R. cbn. now rewrite HU. }
-  destruct (evaluate (vf_locals f) (sloc loc "locals")) as [[|v|o]|e] eqn:EL.
+      destruct HO as (l & -> & Hr). congruence. }
+  destruct (evaluate (vf_locals f) (sloc loc "locals")) as [|v|o] eqn:EL.
   - apply Hgo. intros rw Hr. rewrite HL in Hr. discriminate.
   - destruct HL as [HL1 HL2].
     assert (Hloc : forall rw, vf_locals f = Some rw -> failed rw -> False).
     { intros rw Hr F. rewrite HL1 in Hr. inversion Hr; subst. cbn in F. now apply HL2. }
     destruct v; try (apply Hgo; exact Hloc);
     (cbn [fst snd]; split; [discriminate|]; split; [|eauto];
-     intros st rw Hin Hr F U; apply in_app_or in Hin as [Hin|Hin]; apply trace_of_in' in Hin as [-> _];
+     intros st rw Hin Hr F; apply in_app_or in Hin as [Hin|Hin]; apply trace_of_in' in Hin as [-> _];
      cbn in Hr; exfalso; eauto).
   - cbn [fst snd]. split; [discriminate|]. split; [|eauto].
     destruct HL as [_ HN].
-    intros st rw Hin Hr F U. apply in_app_or in Hin as [Hin|Hin]; apply trace_of_in' in Hin as [-> _]; cbn in Hr.
+    intros st rw Hin Hr F. apply in_app_or in Hin as [Hin|Hin]; apply trace_of_in' in Hin as [-> _]; cbn in Hr.
     + exfalso; eauto.
     + eauto.
-  - cbn [fst snd]. split; [discriminate|]. split.
-    + intros st rw Hin Hr F U. apply in_app_or in Hin as [Hin|Hin]; apply trace_of_in' in Hin as [-> _]; cbn in Hr.
-      * exfalso; eauto.
-      * rewrite HL in Hr. inversion Hr; subst. exfalso. now apply U.
-    + intros _ Hd. exfalso. apply (Hd SLocals). cbn. exact HL.
 Qed.
 
-(* GENUINE DEFECT (as of this review): the except handlers call celpy's tree_dump on the raised
-   error's tree without protection, and tree_dump raises IndexError on trees such as
-   `inputs.items == []`.  So "no exception escapes" is FALSE without the [vf_dumpable] premise. *)
-Theorem vf_exception_escapes_refuted :
-  exists f base loc,
-    err_free (VMap (base_map base)) /\ vf_ret_fits f /\
-    fst (reconcile_vf f base loc) = Raised IndexError.
+(* no exception escapes, whatever value_base is *)
+Lemma evaluate_overlay_total : forall idx rr b loc,
+  match rr with RVal (VList l) => idx_in_range idx (List.length l) = true | _ => True end ->
+  exists u, evaluate_overlay idx rr b loc = Done u.
 Proof.
-  exists {| vf_pre := None; vf_locals := None;
-            vf_return := Some (ISub [("isEmpty", IAt 0)], RRaise false) |}, None, "fn"%string.
-  split; [apply scan_false_err_free; reflexivity|]. split; [exact I|reflexivity].
+  intros idx rr b loc Hf. unfold evaluate_overlay. destruct idx as [n|kvs]; [eauto|].
+  destruct rr as [| |v]; eauto. destruct (scan v); [eauto|]. destruct v; eauto.
+  destruct (apply_idx_total (ISub kvs) (Some (VMap b)) l Hf) as (m & ->). eauto.
 Qed.
 
-Lemma evaluate_raises_refuted : forall loc, evaluate (Some (RRaise false)) loc = Raised IndexError.
-Proof. reflexivity. Qed.
-
-Lemma evaluate_predicates_raises_refuted : forall loc,
-  evaluate_predicates_raw (RRaise false) loc = Raised IndexError.
-Proof. reflexivity. Qed.
+Theorem vf_no_exception : forall f base loc,
+  vf_ret_fits f -> exists u, fst (reconcile_vf f base loc) = Done u.
+Proof.
+  intros f base loc Hf. unfold reconcile_vf.
+  destruct (evaluate_predicates_opt (vf_pre f) (sloc loc "preconditions")); [cbn; eauto|].
+  destruct (vf_return f) as [[idx rr]|] eqn:R; [|cbn; eauto].
+  unfold vf_ret_fits in Hf. rewrite R in Hf.
+  destruct (evaluate_overlay_total idx rr (match base with Some b => b | None => [] end)
+              (sloc loc "return") Hf) as (u & Hu).
+  destruct (evaluate (vf_locals f) (sloc loc "locals")) as [|v|o]; cbn [fst]; eauto.
+  destruct v; cbn [fst]; eauto.
+Qed.
 
 (* ====================================================================== *)
 (* C10: ResourceFunction, the sites of reconcile_resource_function itself  *)
@@ -565,87 +479,58 @@ Section RFNoLeak.
     | SResource => None
     end.
 
-  Lemma rf_after_locals_no_leak : forall f loc t1 r t calls,
-    (forall s, In s t1 -> forall rw, rf_raw_at f s = Some rw -> failed rw -> ~ undumpable rw -> False) ->
-    rf_after_locals call krm f loc t1 = (r, t, calls) ->
-    (forall v, r = Done (Some (UVal v)) -> err_free v) /\
-    (forall s rw, In s t -> rf_raw_at f s = Some rw -> failed rw -> ~ undumpable rw ->
-       exists o, r = Done (Some (UOut o)) /\ names_loc (sloc loc (part s)) o).
+  Theorem rf_no_leak_partial : forall f loc r t calls,
+    reconcile_rf call krm f loc = (r, t, calls) ->
+    (forall v, r = Some (UVal v) -> err_free v) /\
+    (forall s rw, In s t -> rf_raw_at f s = Some rw -> failed rw ->
+       exists o, r = Some (UOut o) /\ names_loc (sloc loc (part s)) o).
   Proof.
-    intros f loc t1 r t calls Hne. unfold rf_after_locals.
+    intros f loc r t calls. unfold reconcile_rf.
+    destruct (evaluate_predicates_opt (rf_pre f) (sloc loc "preconditions")) as [o|] eqn:P.
+    { intros E; inversion E; subst. split; [discriminate|].
+      intros st rw Hin Hr F. apply trace_of_in' in Hin as [-> _]. cbn in Hr. rewrite Hr in P. cbn in P.
+      destruct (evaluate_predicates_failed rw (sloc loc "preconditions") F) as (o' & E' & N).
+      exists o'. split; auto. congruence. }
+    assert (Hpre : forall rw, rf_pre f = Some rw -> failed rw -> False).
+    { intros rw Hr F. rewrite Hr in P. cbn in P.
+      destruct (evaluate_predicates_failed rw (sloc loc "preconditions") F) as (o' & E & _). congruence. }
+    pose proof (evaluate_cases (rf_locals f) (sloc loc "locals")) as HL.
+    match goal with |- context [match ?X with Some _ => _ | None => _ end] => destruct X as [o2|] eqn:EL end.
+    { intros E; inversion E; subst. split; [discriminate|].
+      intros st rw Hin Hr F. apply in_app_or in Hin as [Hin|Hin]; apply trace_of_in' in Hin as [-> _]; cbn in Hr.
+      - exfalso; eauto.
+      - destruct (evaluate (rf_locals f) (sloc loc "locals")) as [|v|o3]; try discriminate.
+        + destruct HL as [HL1 HL2]. rewrite HL1 in Hr. inversion Hr; subst. cbn in F. contradiction.
+        + destruct HL as [_ HN]. inversion EL; subst. eauto. }
+    assert (Hloc : forall rw, rf_locals f = Some rw -> failed rw -> False).
+    { intros rw Hr F. destruct (evaluate (rf_locals f) (sloc loc "locals")) as [|v|o3].
+      - rewrite HL in Hr. discriminate.
+      - destruct HL as [HL1 HL2]. rewrite HL1 in Hr. inversion Hr; subst. cbn in F. contradiction.
+      - discriminate. }
+    assert (Hne : forall s, In s (trace_of SPre (rf_pre f) ++ trace_of SLocals (rf_locals f)) ->
+                  forall rw, rf_raw_at f s = Some rw -> failed rw -> False).
+    { intros s Hin rw Hr F. apply in_app_or in Hin as [Hin|Hin]; apply trace_of_in' in Hin as [-> _];
+        cbn in Hr; eauto. }
     destruct (krm (rf_locals f)) as [[v|o3] calls0] eqn:K.
     2:{ intros E; inversion E; subst. split; [discriminate|].
-        intros st rw Hin Hr F U. apply in_app_or in Hin as [Hin|[<-|[]]]; [exfalso; eauto|discriminate]. }
-    destruct (evaluate_predicates_opt (rf_post f) (sloc loc "postconditions")) as [[o4|]|e4] eqn:Q.
+        intros st rw Hin Hr F. apply in_app_or in Hin as [Hin|[<-|[]]]; [exfalso; eauto|discriminate]. }
+    destruct (evaluate_predicates_opt (rf_post f) (sloc loc "postconditions")) as [o4|] eqn:Q.
     { intros E; inversion E; subst. split; [discriminate|].
-      intros st rw Hin Hr F U. apply in_app_or in Hin as [Hin|[<-|Hin]]; [exfalso; eauto|discriminate|].
+      intros st rw Hin Hr F. apply in_app_or in Hin as [Hin|[<-|Hin]]; [exfalso; eauto|discriminate|].
       apply trace_of_in' in Hin as [-> _]. cbn in Hr. rewrite Hr in Q. cbn in Q.
-      destruct (evaluate_predicates_failed rw (sloc loc "postconditions") F U) as (o' & E' & N).
+      destruct (evaluate_predicates_failed rw (sloc loc "postconditions") F) as (o' & E' & N).
       exists o'. split; auto. congruence. }
-    2:{ intros E; inversion E; subst. split; [discriminate|].
-        intros st rw Hin Hr F U. apply in_app_or in Hin as [Hin|[<-|Hin]]; [exfalso; eauto|discriminate|].
-        apply trace_of_in' in Hin as [-> _]. cbn in Hr. rewrite Hr in Q. cbn in Q.
-        apply evaluate_predicates_raises in Q. contradiction. }
-    assert (Hpost : forall rw, rf_post f = Some rw -> failed rw -> ~ undumpable rw -> False).
-    { intros rw Hr F U. rewrite Hr in Q. cbn in Q.
-      destruct (evaluate_predicates_failed rw (sloc loc "postconditions") F U) as (o' & E & _). congruence. }
+    assert (Hpost : forall rw, rf_post f = Some rw -> failed rw -> False).
+    { intros rw Hr F. rewrite Hr in Q. cbn in Q.
+      destruct (evaluate_predicates_failed rw (sloc loc "postconditions") F) as (o' & E & _). congruence. }
     pose proof (evaluate_cases (rf_return f) (sloc loc "return")) as HR.
     intros E; inversion E; subst. clear E. split.
-    - intros v0 E0. destruct (evaluate (rf_return f) (sloc loc "return")) as [[|v1|o5]|e5]; inversion E0; subst. tauto.
-    - intros st rw Hin Hr F U. apply in_app_or in Hin as [Hin|Hin].
+    - intros v0 E0. destruct (evaluate (rf_return f) (sloc loc "return")) as [|v1|o5]; inversion E0; subst. tauto.
+    - intros st rw Hin Hr F. apply in_app_or in Hin as [Hin|Hin].
       + apply in_app_or in Hin as [Hin|[<-|Hin]]; [exfalso; eauto|discriminate|].
         apply trace_of_in' in Hin as [-> _]. cbn in Hr. exfalso; eauto.
       + apply trace_of_in' in Hin as [-> _]. cbn in Hr.
-        destruct (evaluate_failed rw (sloc loc "return") F U) as (o' & E' & N).
+        destruct (evaluate_failed rw (sloc loc "return") F) as (o' & E' & N).
         rewrite Hr, E'. eauto.
-  Qed.
-
-  Theorem rf_no_leak_partial : forall f loc r t calls,
-    reconcile_rf call krm f loc = (r, t, calls) ->
-    (forall v, r = Done (Some (UVal v)) -> err_free v) /\
-    (forall s rw, In s t -> rf_raw_at f s = Some rw -> failed rw -> ~ undumpable rw ->
-       exists o, r = Done (Some (UOut o)) /\ names_loc (sloc loc (part s)) o).
-  Proof.
-    intros f loc r t calls. unfold reconcile_rf.
-    destruct (evaluate_predicates_opt (rf_pre f) (sloc loc "preconditions")) as [[o|]|e0] eqn:P.
-    { intros E; inversion E; subst. split; [discriminate|].
-      intros st rw Hin Hr F U. apply trace_of_in' in Hin as [-> _]. cbn in Hr. rewrite Hr in P. cbn in P.
-      destruct (evaluate_predicates_failed rw (sloc loc "preconditions") F U) as (o' & E' & N).
-      exists o'. split; auto. congruence. }
-    2:{ intros E; inversion E; subst. split; [discriminate|].
-        intros st rw Hin Hr F U. apply trace_of_in' in Hin as [-> _]. cbn in Hr. rewrite Hr in P. cbn in P.
-        apply evaluate_predicates_raises in P. contradiction. }
-    assert (Hpre : forall rw, rf_pre f = Some rw -> failed rw -> ~ undumpable rw -> False).
-    { intros rw Hr F U. rewrite Hr in P. cbn in P.
-      destruct (evaluate_predicates_failed rw (sloc loc "preconditions") F U) as (o' & E & _). congruence. }
-    pose proof (evaluate_cases (rf_locals f) (sloc loc "locals")) as HL.
-    assert (Hcont : (forall rw, rf_locals f = Some rw -> failed rw -> False) ->
-              forall s, In s (trace_of SPre (rf_pre f) ++ trace_of SLocals (rf_locals f)) ->
-              forall rw, rf_raw_at f s = Some rw -> failed rw -> ~ undumpable rw -> False).
-    { intros Hloc s0 Hin rw Hr F U. apply in_app_or in Hin as [Hin|Hin]; apply trace_of_in' in Hin as [-> _];
-        cbn in Hr; eauto. }
-    assert (Hstop : forall o2, (forall rw, rf_locals f = Some rw -> failed rw -> ~ undumpable rw ->
-                                  names_loc (sloc loc "locals") o2) ->
-              (Done (Some (UOut o2)) : res (option (uoutcome vtree)),
-               trace_of SPre (rf_pre f) ++ trace_of SLocals (rf_locals f), @nil call) = (r, t, calls) ->
-              (forall v, r = Done (Some (UVal v)) -> err_free v) /\
-              (forall s rw, In s t -> rf_raw_at f s = Some rw -> failed rw -> ~ undumpable rw ->
-                 exists o, r = Done (Some (UOut o)) /\ names_loc (sloc loc (part s)) o)).
-    { intros o2 Ho2 E; inversion E; subst. split; [discriminate|].
-      intros st rw Hin Hr F U. apply in_app_or in Hin as [Hin|Hin]; apply trace_of_in' in Hin as [-> _]; cbn in Hr.
-      - exfalso; eauto.
-      - eauto. }
-    destruct (evaluate (rf_locals f) (sloc loc "locals")) as [[|v|o2]|e2] eqn:EL.
-    - apply rf_after_locals_no_leak. apply Hcont. intros rw Hr. rewrite HL in Hr. discriminate.
-    - destruct HL as [HL1 HL2].
-      assert (Hloc : forall rw, rf_locals f = Some rw -> failed rw -> False).
-      { intros rw Hr F. rewrite HL1 in Hr. inversion Hr; subst. cbn in F. contradiction. }
-      destruct v; try (apply rf_after_locals_no_leak; apply Hcont; exact Hloc);
-        (apply Hstop; intros rw Hr F U; exfalso; eauto).
-    - apply Hstop. destruct HL as [_ HN]. auto.
-    - intros E; inversion E; subst. split; [discriminate|].
-      intros st rw Hin Hr F U. apply in_app_or in Hin as [Hin|Hin]; apply trace_of_in' in Hin as [-> _]; cbn in Hr.
-      + exfalso; eauto.
-      + rewrite HL in Hr. inversion Hr; subst. exfalso. now apply U.
   Qed.
 End RFNoLeak.
